@@ -233,17 +233,15 @@ Proof.
   { destruct ps as [|p0 ps0]; [discriminate|]. rewrite in_parts_iff. symmetry. apply Den. }
   rewrite SAT. clear SAT.
   destruct c as [[l r] els].
-  apply andb_true_iff in Sc. destruct Sc as [Sc Stext].
-  apply andb_true_iff in Sc. destruct Sc as [Shole Ssg].
-  apply negb_true_iff in Shole. apply negb_true_iff in Ssg.
-  destruct (is_min l && is_max r) eqn:Emm.
-  - (* MIN..MAX: nothing generated; safe says there is a single interval *)
-    simpl in Shole. destruct els; [|discriminate].
+  rename Sc into Stext.
+  destruct (is_min l && is_max r && negb (nonnil els)) eqn:Emm.
+  - (* the single interval MIN..MAX: nothing generated *)
+    apply andb_true_iff in Emm. destruct Emm as [Emm E3]. apply negb_true_iff in E3.
+    destruct els; [|discriminate].
     apply andb_true_iff in Emm. destruct Emm as [E1 E2].
     destruct l; try discriminate. destruct r; try discriminate.
     simpl. split; [intros _|reflexivity]. apply inl_one. unfold inp. simpl. tauto.
-  - rewrite Ssg.
-    set (sg := long_sign w (l, r, els)) in *.
+  - set (sg := long_sign w (l, r, els)) in *.
     assert (N : nscond (if 0 <? sg then Some 0 else None) z).
     { intros s Hs. destruct (0 <? sg) eqn:Ep; [|discriminate]. inversion Hs; subst.
       assert (0 < sg) by lia. rewrite (pos_sign_ulong w l r els H) in R. unfold uint64 in R. lia. }
@@ -288,9 +286,7 @@ Proof.
   unfold int_safe_core. rewrite crange_of_one. simpl fst. simpl snd.
   destruct l as [| |a]; destruct r as [| |b]; simpl in H; try discriminate.
   - (* MIN..b *) destruct w; reflexivity.
-  - (* a..MAX *)
-    unfold long_sign, wfpb. simpl.
-    destruct w; destruct (0 <=? a) eqn:E0; destruct (a <=? two31m1) eqn:E1; simpl; reflexivity.
+  - (* a..MAX *) reflexivity.
 Qed.
 
 Theorem half_open_exact : forall w p z, half_open p = true ->
@@ -334,10 +330,11 @@ Proof.
   { destruct sz as [|p0 ps0]; [discriminate|]. rewrite in_parts_iff. symmetry. apply Den. }
   rewrite SAT. clear SAT.
   destruct c as [[l r] els].
-  apply andb_true_iff in Sc. destruct Sc as [Sdrop Stext]. apply negb_true_iff in Sdrop.
+  rename Sc into Stext.
   assert (N : nscond (Some 0) n) by (intros s Hs; inversion Hs; subst; exact Hn).
-  destruct ((edge_val l =? 0) && is_max r) eqn:Ed.
-  - simpl in Sdrop. destruct els; [|discriminate].
+  destruct ((edge_val l =? 0) && is_max r && negb (nonnil els)) eqn:Ed.
+  - apply andb_true_iff in Ed. destruct Ed as [Ed E3]. apply negb_true_iff in E3.
+    destruct els; [|discriminate].
     apply andb_true_iff in Ed. destruct Ed as [E1 E2]. destruct r; try discriminate.
     simpl in Wc. inversion Wc as [|? ? Wp Wtl]; subst. destruct Wp as [W1 _]. simpl in W1.
     split; [intros _|reflexivity]. apply inl_one. unfold inp. simpl.
@@ -417,11 +414,6 @@ Definition exact_at (w : bool) (t : cty) : Prop :=
 Lemma res_false : forall w, RFail w = ROk <-> false = true.
 Proof. intros; split; discriminate. Qed.
 
-Lemma own_but_last_tail : forall m r, own_but_last (m :: r) = true -> own_but_last r = true.
-Proof. intros m [|m' r'] H; [reflexivity|]. simpl in H. apply andb_true_iff in H. tauto. Qed.
-Lemma own_but_last_head : forall m r, own_but_last (m :: r) = true -> has_own m = false -> r = [].
-Proof. intros m [|m' r'] H E; [reflexivity|]. simpl in H. apply andb_true_iff in H. destruct H as [H _]. congruence. Qed.
-
 Lemma opt_free_none : forall t, opt_free_head t = true -> satisfies t VNone = false.
 Proof. induction t; simpl; intros; try reflexivity; try discriminate; auto. Qed.
 
@@ -432,27 +424,24 @@ Proof.
 Qed.
 
 Lemma members_exact : forall w ms, Forall (exact_at w) ms -> forall vs,
-  own_but_last ms = true -> forallb (fun m => safe w m true) ms = true -> all2 (repr w) ms vs = true ->
+  forallb (fun m => safe w m true) ms = true -> all2 (repr w) ms vs = true ->
   (walk_members (fun m x => chk w m true x) ms vs = ROk <-> all2 satisfies ms vs = true).
 Proof.
-  intros w. induction ms as [|m ms' IH]; intros F vs O S R.
+  intros w. induction ms as [|m ms' IH]; intros F vs S R.
   - destruct vs; simpl; [tauto | apply res_false].
   - destruct vs as [|v vs']; [simpl; apply res_false|].
     inversion F as [|? ? Pm Fms]; subst.
     simpl in S. apply andb_true_iff in S. destruct S as [Sm Sms].
     simpl in R. apply andb_true_iff in R. destruct R as [Rm Rms].
-    pose proof (own_but_last_tail _ _ O) as O'.
-    specialize (IH Fms vs' O' Sms Rms).
+    specialize (IH Fms vs' Sms Rms).
     assert (PRES : v <> VNone ->
-      ((if has_own m then match chk w m true v with ROk => walk_members (fun m x => chk w m true x) ms' vs' | e => e end
-        else chk w m true v) = ROk <-> satisfies m v && all2 satisfies ms' vs' = true)).
-    { intros _. specialize (Pm true v Sm Rm). destruct (has_own m) eqn:Eo.
-      - destruct (chk w m true v) eqn:Ec.
-        + destruct Pm as [P1 _]. rewrite (P1 eq_refl). simpl. exact IH.
-        + destruct (satisfies m v) eqn:Es; [destruct Pm as [_ P2]; specialize (P2 eq_refl); discriminate|].
-          simpl. apply res_false.
-      - pose proof (own_but_last_head _ _ O Eo) as ->. destruct vs'; [|simpl in Rms; discriminate].
-        simpl. rewrite andb_true_r. exact Pm. }
+      ((match chk w m true v with ROk => walk_members (fun m x => chk w m true x) ms' vs' | e => e end) = ROk
+       <-> satisfies m v && all2 satisfies ms' vs' = true)).
+    { intros _. specialize (Pm true v Sm Rm).
+      destruct (chk w m true v) eqn:Ec.
+      - destruct Pm as [P1 _]. rewrite (P1 eq_refl). simpl. exact IH.
+      - destruct (satisfies m v) eqn:Es; [destruct Pm as [_ P2]; specialize (P2 eq_refl); discriminate|].
+        simpl. apply res_false. }
     destruct v; try (simpl; apply PRES; discriminate).
     (* VNone *)
     simpl. destruct (is_copt m) eqn:Ec.
@@ -496,7 +485,7 @@ Proof.
   - destruct v; simpl; try apply res_false; tauto.
   - destruct v; simpl; try apply res_false. simpl in S, R. apply int_check_exact; auto.
   - destruct v; simpl; try apply res_false. simpl in S. apply size_check_exact; auto. apply zlength_nonneg.
-  - destruct v; simpl; try apply res_false. simpl in S, R. apply andb_true_iff in S. destruct S as [So Sm].
+  - destruct v; simpl; try apply res_false. simpl in S, R.
     apply members_exact; auto.
   - destruct v; simpl; try apply res_false. simpl in S, R.
     apply andb_true_iff in S. destruct S as [S Se]. apply andb_true_iff in S. destruct S as [Ssz Sslot].
@@ -558,11 +547,6 @@ Proof. intros. apply check_exact_partial; auto. Qed.
 (* ------------------------------------------------------------------ outside the safe region: witnesses *)
 Definition iv (a b : Z) : ipair := (EV a, EV b).
 
-(* SEQUENCE { a BOOLEAN, b INTEGER (1..10) }, { TRUE, 99 } *)
-Lemma refuted_sequence_early_return : exists t v,
-  repr false t v = true /\ check false t v = ROk /\ satisfies t v = false.
-Proof. exists (CSeq [CBool; CInt [iv 1 10] []]), (VSeq [VBool true; VInt 99]). vm_compute. auto. Qed.
-
 (* T ::= SEQUENCE (SIZE(2..3)) OF BOOLEAN, { TRUE } *)
 Lemma refuted_of_size_unchecked : exists t v,
   repr false t v = true /\ check false t v = ROk /\ satisfies t v = false.
@@ -573,16 +557,6 @@ Lemma refuted_except_ignored : exists t v,
   repr false t v = true /\ check false t v = ROk /\ satisfies t v = false.
 Proof. exists (CInt [iv 1 10] [iv 5 5]), (VInt 5). vm_compute. auto. Qed.
 
-(* INTEGER (MIN..5 | 10..MAX), 7 *)
-Lemma refuted_min_max_union : exists t v,
-  repr false t v = true /\ check false t v = ROk /\ satisfies t v = false.
-Proof. exists (CInt [(EMin, EV 5); (EV 10, EMax)] []), (VInt 7). vm_compute. auto. Qed.
-
-(* INTEGER (0..4294967295), 4294967296 (fits the 64-bit unsigned long) *)
-Lemma refuted_ulong_shortcut : exists t v,
-  repr false t v = true /\ check false t v = ROk /\ satisfies t v = false.
-Proof. exists (CInt [iv 0 4294967295] []), (VInt 4294967296). vm_compute. auto. Qed.
-
 (* INTEGER (MIN..1099511627776), -2^70: rejected although it satisfies *)
 Lemma refuted_wide_open_range : exists t v,
   repr false t v = true /\ check false t v = RFail WTooLarge /\ satisfies t v = true.
@@ -590,7 +564,7 @@ Proof. exists (CInt [(EMin, EV 1099511627776)] []), (VInt (-11805916207174113034
 
 (* the full statement is false of the code *)
 Theorem check_exact_refuted : exists t v, repr false t v = true /\ check_ok false t v <> satisfies t v.
-Proof. exists (CSeq [CBool; CInt [iv 1 10] []]), (VSeq [VBool true; VInt 99]). vm_compute. split; [reflexivity | discriminate]. Qed.
+Proof. exists (CSeqOf [iv 2 3] CBool), (VList [VBool true]). vm_compute. split; [reflexivity | discriminate]. Qed.
 
 (* ------------------------------------------------------------------ non-vacuity *)
 Definition ex_ty : cty :=
@@ -607,6 +581,22 @@ Example ex_reject :
   let v := VSeq [VInt 25; VOct [1; 2; 3; 4; 5]; VList [VInt 0; VInt 7]; VSome (VInt 4294967295); VChoice 2 (VSeq [VBool false])] in
   repr false ex_ty v = true /\ check false ex_ty v = RFail WConstraint /\ satisfies ex_ty v = false.
 Proof. vm_compute. auto. Qed.
+(* the shapes of three repaired defects are inside [safe] and decided as the Spec says:
+   a later SEQUENCE member behind one without a checker of its own; a value in the hole of a union whose
+   hull is MIN..MAX (value and SIZE); INTEGER (0..4294967295) above 2^32-1 *)
+Example ex_repaired :
+  safe false (CSeq [CBool; CInt [iv 1 10] []]) false = true /\
+  check false (CSeq [CBool; CInt [iv 1 10] []]) (VSeq [VBool true; VInt 99]) = RFail WConstraint /\
+  safe false (CInt [(EMin, EV 5); (EV 10, EMax)] []) false = true /\
+  check false (CInt [(EMin, EV 5); (EV 10, EMax)] []) (VInt 7) = RFail WConstraint /\
+  check false (CInt [(EMin, EV 5); (EV 10, EMax)] []) (VInt 10) = ROk /\
+  safe false (COct [iv 0 0; (EV 4, EMax)]) false = true /\
+  check false (COct [iv 0 0; (EV 4, EMax)]) (VOct [1; 2]) = RFail WConstraint /\
+  safe false (CInt [iv 0 4294967295] []) false = true /\
+  check false (CInt [iv 0 4294967295] []) (VInt 4294967296) = RFail WConstraint /\
+  check false (CInt [iv 0 4294967295] []) (VInt 4294967295) = ROk.
+Proof. vm_compute. auto 12. Qed.
+
 (* the finite bound 0 next to a MIN / MAX edge (whose .value is 0 as well): still an inequality *)
 Example ex_half_open_zero :
   emit1 None None (EMin, EV 0) = Some (CLe 0) /\ emit1 None None (EV 0, EMax) = Some (CGe 0) /\
